@@ -480,12 +480,18 @@ func (o *Overlay) handleSendTreeMarshal(si *network.ServerIdentity, tm *TreeMars
 		return
 	}
 
+	// the listed instances change while messages are handled: hold their lock,
+	// and read each instance's tree from the storage (the tree of an instance
+	// that is being created locally may not be stored yet)
 	var ro *Roster
+	o.instancesLock.Lock()
 	for _, inst := range o.instances {
-		if inst.Roster().ID.Equal(tm.RosterID) {
-			ro = inst.Roster()
+		tree := o.treeStorage.Get(inst.token.TreeID)
+		if tree != nil && tree.Roster != nil && tree.Roster.ID.Equal(tm.RosterID) {
+			ro = tree.Roster
 		}
 	}
+	o.instancesLock.Unlock()
 
 	if ro == nil {
 		log.Lvl1("unknown roster")
